@@ -71,6 +71,7 @@ z3.Solver.check = _counting_check  # type: ignore
 OVERRIDES = [
     "format: plain objects are formatted by running their own __format__/__str__ under tracing "
     "instead of CrossHair's deep_realize (which enumerates unbounded symbolic ints field by field)",
+    "repr: symbolic ints (also inside dict/list/tuple) are rendered as symbolic strings instead of being realized",
     "chr: faithful model (OverflowError outside the C int range, ValueError outside 0..0x10FFFF)",
 ]
 
@@ -86,6 +87,8 @@ def _format(obj: object, format_spec: str = ""):
         plain = not isinstance(obj, CrossHairValue)
         symint = isinstance(obj, SymbolicInt)
     if format_spec == "":
+        if plain and type(obj) in (dict, list, tuple):
+            return _sym_repr(obj)
         if plain and type(obj) not in (int, float, str, bool, bytes, type(None)):
             # user-level object: run its own formatting code symbolically
             return type(obj).__format__(obj, "")
@@ -94,6 +97,32 @@ def _format(obj: object, format_spec: str = ""):
     with NoTracing():
         obj = deep_realize(obj)
     return format(obj, format_spec)
+
+
+def _sym_repr(obj: object):
+    """repr() that keeps symbolic ints symbolic, also inside built-in containers (log messages)."""
+    with NoTracing():
+        symint = isinstance(obj, SymbolicInt)
+        t = type(obj)
+        kind = None
+        if not isinstance(obj, CrossHairValue):
+            if t is dict:
+                kind = "dict"
+            elif t in (list, tuple):
+                kind = "seq"
+    if symint:
+        return obj.__str__()
+    if kind == "dict":
+        return "{" + ", ".join([_sym_repr(k) + ": " + _sym_repr(v) for k, v in obj.items()]) + "}"  # type: ignore
+    if kind == "seq":
+        inner = ", ".join([_sym_repr(x) for x in obj])  # type: ignore
+        if t is list:
+            return "[" + inner + "]"
+        return "(" + inner + ("," if len(obj) == 1 else "") + ")"  # type: ignore
+    return _orig_repr_patch(obj)
+
+
+_orig_repr_patch = builtinslib._repr
 
 
 def _chr(i: int):
@@ -111,6 +140,7 @@ def _chr(i: int):
 def install_overrides() -> None:
     ch_core._PATCH_REGISTRATIONS[format] = _format
     ch_core._PATCH_REGISTRATIONS[chr] = _chr
+    ch_core._PATCH_REGISTRATIONS[repr] = _sym_repr
 
 
 install_overrides()
@@ -127,6 +157,8 @@ class ExploreResult:
     unknown: int = 0  # path timeout / solver unknown / unsupported -> not decided
     exhausted: bool = False
     violations: List[dict] = field(default_factory=list)
+    violating_paths: int = 0
+    violation_classes: Dict[str, int] = field(default_factory=dict)
     samples: List[dict] = field(default_factory=list)
     solver_checks: int = 0
     solver_seconds: float = 0.0
@@ -169,7 +201,7 @@ def explore(
     timeout: float = 60.0,
     per_path_timeout: float = 20.0,
     max_paths: int = 10**9,
-    max_violations: int = 8,
+    max_violations: int = 3,
     sample_limit: int = 6,
     seed: int = 0,
     stop_on_violation: bool = False,
@@ -241,8 +273,13 @@ def explore(
                         model.update({k: _plain(v) for k, v in fixed.items()})
                     if violation is not None:
                         violation["args"] = model
-                        if len(res.violations) < max_violations:
+                        d = violation.get("detail")
+                        cls = (violation["kind"], violation.get("exc_type"), violation.get("where"),
+                               str(d.get("sig")) if isinstance(d, dict) else None)
+                        res.violation_classes[str(cls)] = res.violation_classes.get(str(cls), 0) + 1
+                        if res.violation_classes[str(cls)] <= max_violations and len(res.violations) < 200:
                             res.violations.append(violation)
+                        res.violating_paths += 1
                         status = VerificationStatus.REFUTED
                     else:
                         res.held += 1
@@ -258,9 +295,7 @@ def explore(
                     res.unknown_reasons[key] = res.unknown_reasons.get(key, 0) + 1
                     status = VerificationStatus.UNKNOWN
                 _analysis, exhausted = space.bubble_status(CallAnalysis(status))
-            if status == VerificationStatus.REFUTED and (
-                stop_on_violation or len(res.violations) >= max_violations
-            ):
+            if status == VerificationStatus.REFUTED and stop_on_violation:
                 res.stop_reason = "violation"
                 break
             if exhausted:
